@@ -525,7 +525,7 @@ func c16Body(c *fw.Ctx) {
 				f("", pre+q)
 			}
 		}
-		for _, x := range []string{"h.test", "h.test:81/p?q#f", "u:p@h.test/", "/p", "?q", "#f", "", "  ", "1.2.3.4/x", "[::1]/x", "é.test/é?é#é", "a b/c d", "c:/x", "localhost:80/"} {
+		for _, x := range []string{"h.test", "h.test:81/p?q#f", "u:p@h.test/", ":pw@h.test/", "http://:pw@h:81/p?b&a#f", "foo://:pw@h/o", "/p", "?q", "#f", "", "  ", "1.2.3.4/x", "[::1]/x", "é.test/é?é#é", "a b/c d", "c:/x", "localhost:80/"} {
 			f("", x)
 			f("h.test/base/", x)
 			f("http://u@h:81/d/?bq#bf", x)
